@@ -15,8 +15,17 @@ ROOT = os.path.dirname(os.path.dirname(os.path.abspath(__file__)))
 SEEDED = os.path.join(ROOT, "seeded")
 
 
-def sh(cmd, **kw):
-    return subprocess.run(cmd, shell=True, stdout=subprocess.PIPE, stderr=subprocess.STDOUT, text=True, **kw)
+def sh(cmd, timeout=None, **kw):
+    # own process group, so that a timed-out check does not leave harness shards running on a mutated tree
+    import signal
+    p = subprocess.Popen(cmd, shell=True, stdout=subprocess.PIPE, stderr=subprocess.STDOUT, text=True, start_new_session=True, **kw)
+    try:
+        out, _ = p.communicate(timeout=timeout)
+    except subprocess.TimeoutExpired:
+        os.killpg(p.pid, signal.SIGKILL)
+        out, _ = p.communicate()
+        return subprocess.CompletedProcess(cmd, 124, out + "\nTIMEOUT", None)
+    return subprocess.CompletedProcess(cmd, p.returncode, out, None)
 
 
 def repo_clean():
@@ -52,6 +61,7 @@ def main():
                               tail=r.stdout.strip().splitlines()[-1][:300] if r.stdout.strip() else "")
             results[n] = dict(property=meta["property"], summary=meta.get("summary", ""), checks=res,
                               detected=any(v["exit"] == 1 for v in res.values()))
+            json.dump(results, open(os.path.join(SEEDED, "RESULTS.json"), "w"), indent=1)
         finally:
             sh("git -C /repo checkout -- .")
             sh("git -C /repo clean -fdq -- rusl tiny-std tiny-start tiny-cli")
